@@ -222,7 +222,7 @@ def cbool(b):
     return "true" if b else "false"
 
 
-def coq_eval_mismatches(pid, imports, checker, cases, ctype, shard=400, timeout=900, ztype=True):
+def coq_eval_mismatches(pid, imports, checker, cases, ctype, shard=400, timeout=900, ztype=True, max_bytes=1200000):
     """cases: list of Coq terms (strings), each of the input type of `checker`
     (a Gallina function `case -> bool`).  Returns the indices i with checker(case_i) = false,
     or raises RuntimeError when coqc itself fails."""
@@ -230,13 +230,24 @@ def coq_eval_mismatches(pid, imports, checker, cases, ctype, shard=400, timeout=
     shutil.rmtree(d, ignore_errors=True)
     os.makedirs(d)
     files = []
-    for k in range(0, len(cases), shard):
-        fn = os.path.join(d, "s%05d.v" % (k // shard))
+    # a shard closes at `shard` cases or at max_bytes of literal text, whichever comes first: coqc's memory grows
+    # with the size of the literal (several GB for a multi-MB file), and NPROC of them run side by side
+    groups, cur, size = [], [], 0
+    for i, c in enumerate(cases):
+        if cur and (len(cur) >= shard or size + len(c) > max_bytes):
+            groups.append(cur)
+            cur, size = [], 0
+        cur.append((i, c))
+        size += len(c)
+    if cur:
+        groups.append(cur)
+    for gi, grp in enumerate(groups):
+        fn = os.path.join(d, "s%05d.v" % gi)
         with open(fn, "w") as f:
             f.write("From PydapV Require Import %s.\n" % imports)
             f.write("Local Open Scope Z_scope.\n" if ztype else "")
             f.write("Definition cases : list (N * (%s)) := [\n" % ctype)
-            f.write(";\n".join("(%d%%N, %s)" % (k + j, c) for j, c in enumerate(cases[k:k + shard])))
+            f.write(";\n".join("(%d%%N, %s)" % (i, c) for i, c in grp))
             f.write("\n].\n")
             f.write("Eval vm_compute in (map fst (filter (fun p => negb (%s (snd p))) cases)).\n" % checker)
         files.append(fn)
@@ -246,7 +257,7 @@ def coq_eval_mismatches(pid, imports, checker, cases, ctype, shard=400, timeout=
     listing = os.path.join(d, "files.txt")
     open(listing, "w").write("\n".join(files) + "\n")
     cmd = ("cat %s | xargs -P %d -I{} sh -c 'ulimit -s unlimited 2>/dev/null; "
-           "timeout %d coqc -Q %s PydapV {} > {}.out 2>&1 || echo FAIL {} >> %s/fail.txt'"
+           "timeout %d coqc -noglob -Q %s PydapV {} > {}.out 2>&1 || echo FAIL {} >> %s/fail.txt'"
            % (listing, NPROC, timeout, COQ, d))
     _run(cmd, timeout=timeout * (1 + len(files) // NPROC) + 60)
     if os.path.exists(os.path.join(d, "fail.txt")):
